@@ -397,6 +397,78 @@ class Property:
     def teardown(self): pass
 
 
+def start_coverage(prop, tier):
+    """Measure which lines of the property's anchored source files the implementation runs execute (thorough tier, or VERIF_COVERAGE=1):
+    a number for how much of the anchored code the correspondence/oracle streams actually drive."""
+    if not (tier == "thorough" or os.environ.get("VERIF_COVERAGE") == "1"): return None
+    try:
+        import coverage
+        c = coverage.Coverage(data_file=None, include=[os.path.join(os.path.abspath(REPO), "aiocoap", "*")], branch=False)
+        c.start(); return c
+    except Exception:
+        return None
+
+PINNED = "1d5ce5c"   # the commit the anchors' line numbers in properties.jsonl refer to
+
+def _functions(src):
+    """qualified name -> (first line, last line) of every function / method in a Python source text"""
+    import ast
+    out = {}
+    def walk(node, prefix):
+        for n in getattr(node, "body", []):
+            if isinstance(n, (ast.FunctionDef, ast.AsyncFunctionDef)):
+                out[prefix + n.name] = (n.lineno, n.end_lineno); walk(n, prefix + n.name + ".")
+            elif isinstance(n, ast.ClassDef):
+                walk(n, prefix + n.name + ".")
+    walk(ast.parse(src), "")
+    return out
+
+def anchored_functions(prop_id):
+    """{file: sorted qualified names of the functions that contain the anchored line ranges (at the pinned commit)}"""
+    anchors = {}
+    for l in open(os.path.join(VERIF, "properties.jsonl")):
+        d = json.loads(l)
+        if d["id"] != prop_id: continue
+        for m in d["anchors"].get("mechanism", []) + d["anchors"].get("state", []):
+            w = m.get("where") or ""
+            if ":" not in w: continue
+            f, rngs = w.split(":", 1)
+            for r in rngs.split(","):
+                try: a, b = (r.split("-") + [r])[:2]; anchors.setdefault(f.strip(), []).append((int(a), int(b)))
+                except ValueError: pass
+    out = {}
+    for f, rngs in anchors.items():
+        rc, old = run(["git", "-C", "/repo", "show", "%s:%s" % (PINNED, f)], 30)
+        if rc != 0: continue
+        try: fns = _functions(old)
+        except SyntaxError: continue
+        names = sorted({q for q, (a, b) in fns.items() for (x, y) in rngs if a <= y and x <= b
+                        and not any(q2 != q and q2.startswith(q + ".") and fns[q2][0] <= y and x <= fns[q2][1] for q2 in fns)})
+        out[f] = names
+    return out
+
+def stop_coverage(c, prop):
+    if c is None: return "not measured in this tier (set VERIF_COVERAGE=1 or run thorough)"
+    c.stop()
+    out = {}
+    try:
+        for f, names in anchored_functions(prop.id).items():
+            path = os.path.join(os.path.abspath(REPO), f)
+            if not os.path.exists(path): out[f] = "missing"; continue
+            _, stmts, _, missing, _ = c.analysis2(path)
+            cur = _functions(open(path).read())
+            per = {}
+            for q in names:
+                if q not in cur: per[q] = "function no longer present"; continue
+                a, b = cur[q]
+                st = [x for x in stmts if a < x <= b]; ms = [x for x in missing if a < x <= b]
+                per[q] = {"statements": len(st), "executed": len(st) - len(ms), "not_executed_lines": ms[:12]}
+            tot = sum(v["statements"] for v in per.values() if isinstance(v, dict)); ex = sum(v["executed"] for v in per.values() if isinstance(v, dict))
+            out[f] = {"anchored_functions": per, "statements": tot, "executed": ex, "percent": round(100.0 * ex / max(1, tot), 1)}
+    except Exception as e:
+        return "coverage failed: %r" % e
+    return out
+
 def load_known_findings():
     out = []
     for p in [os.path.join(VERIF, "known_findings.json")] + sorted(glob.glob(os.path.join(VERIF, "known_findings.d", "*.json"))):
@@ -442,7 +514,9 @@ def run_check(prop, tier, seed):
     n_corpus = len(cases)
     cases += list(prop.gen_cases(tier, rng, budget))
     workdir = os.path.join(BUILD, "%s-%d" % (prop.id, os.getpid()))
+    cov = start_coverage(prop, tier)
     results = [safe_impl(prop, s, i) for s, i in cases]
+    anchored_cov = stop_coverage(cov, prop)
     # model side
     idx, terms = [], []
     if br.ok or br.model_ok:
@@ -533,6 +607,7 @@ def run_check(prop, tier, seed):
             "disagreements": len(disagreements), "oracle_violations": len(violations), "known_findings_reproduced": sorted(known_hits),
             "extra_search_evaluations": searched, "build_ok": br.ok, "build_failure": br.failed, "model_error": model_err,
             "samples": samples,
+            "anchored_source_line_coverage": anchored_cov,
         },
         "assumptions": prop.assumptions, "wall_s": round(wall, 2), "violations": len(reported) if violations else (1 if exit_code else 0),
     }
